@@ -34,6 +34,10 @@ func runC06(p *eng.Prog, r *eng.Report, tier string) {
 	c06JoinCtx(c)
 	// C06.6 the library's own helpers release every response they obtain
 	respRelease(c, "C06.6", 8)
+	// C06.8 waiter-table registrations are withdrawn when the wait is cancelled
+	registrationWithdrawn(c, "C06.8", "xmpp.Session.sentStanzas", 1)
+	registrationWithdrawn(c, "C06.8", "receipts.Handler.sent", 1)
+	registrationWithdrawn(c, "C06.8", "ibb.Listener.expected", 1)
 	// C06.7 a hand-off record queued for the handler is taken back when the call fails
 	handoffWithdrawn(c, "C06.7", "muc", "(*Channel).JoinPresence", "muc.Channel.join")
 	// lock discipline of the waiter tables
